@@ -83,7 +83,7 @@ def pcapng_block(btype, body, e="<"):
     return struct.pack(e + "II", btype, total) + _pad4(body) + struct.pack(e + "I", total)
 
 
-def write_pcapng(path, items, *, endian="<", tsresol=6, tsoffset=0, snaplen=0):
+def write_pcapng(path, items, *, endian="<", tsresol=6, tsoffset=0, snaplen=0, offset_first=False):
     """items: list of ('pkt', ts_us:int, frame) | ('dsb', text_bytes) | ('raw', btype, body)
     ts_us is integer microseconds since epoch; converted exactly to the chosen resolution when possible."""
     e = endian
@@ -91,10 +91,9 @@ def write_pcapng(path, items, *, endian="<", tsresol=6, tsoffset=0, snaplen=0):
     shb = struct.pack(e + "IHHq", 0x1A2B3C4D, 1, 0, -1)
     out += pcapng_block(0x0A0D0D0A, shb, e)
     opts = b""
-    if tsresol != 6:
-        opts += _opt(9, bytes([tsresol]), e)
-    if tsoffset:
-        opts += _opt(14, struct.pack(e + "q", tsoffset), e)
+    o_res = _opt(9, bytes([tsresol]), e) if tsresol != 6 else b""
+    o_off = _opt(14, struct.pack(e + "q", tsoffset), e) if tsoffset else b""
+    opts = (o_off + o_res) if offset_first else (o_res + o_off)        # options may come in any order
     if opts:
         opts += struct.pack(e + "HH", 0, 0)
     idb = struct.pack(e + "HHI", 1, 0, snaplen) + opts
